@@ -551,6 +551,19 @@ fn dump_file(src: &str) -> Result<Value, String> {
 fn dump_snippet(kind: &str, src: &str) -> Result<Value, String> {
     match kind {
         "file" => dump_file(src),
+        "file_data" => {
+            // the analysed program as *data*: exactly what syn::parse_file returns (no rewriting)
+            let f = syn::parse_file(src).map_err(|e| e.to_string())?;
+            Ok(debug_to_json(&format!("{:?}", f)))
+        }
+        "expr_data" => {
+            let e: Expr = syn::parse_str(src).map_err(|e| e.to_string())?;
+            Ok(debug_to_json(&format!("{:?}", e)))
+        }
+        "item_data" => {
+            let t: syn::Item = syn::parse_str(src).map_err(|e| e.to_string())?;
+            Ok(debug_to_json(&format!("{:?}", t)))
+        }
         "expr" => {
             let mut e: Expr = syn::parse_str(src).map_err(|e| e.to_string())?;
             Rewriter.visit_expr_mut(&mut e);
